@@ -33,7 +33,9 @@ MOf(s) == SeriesTab[s].m
 TagOf(s, k) == SeriesTab[s].t[k]
 
 \* ---- authorizers: nil, the open authorizer, fine-grained ones hiding a set of series
-Hides == {{}, {1}, {s \in S : MOf(s) = "m1"}, {s \in S : TagOf(s, "k1") = "a"}, S}
+\* HideVal(k, v): exactly the series carrying tag value k=v are hidden (directed at per-value authorization scans)
+HideVal(k, v) == {s \in S : TagOf(s, k) = v}
+Hides == {{}, {1}, {s \in S : MOf(s) = "m1"}, S} \cup {HideVal(k, v) : k \in {"k1", "k2"}, v \in {"a", "b"}}
 Auths == {[kind |-> "nil", hide |-> {}], [kind |-> "open", hide |-> {}]} \cup {[kind |-> "fine", hide |-> h] : h \in Hides}
 IsOpen(a) == a.kind \in {"nil", "open"}
 Allowed(a, s) == IsOpen(a) \/ s \notin a.hide
@@ -44,6 +46,8 @@ NameConds == {None} \cup {[c |-> "nameEq", x |-> m, y |-> ""] : m \in Meas}
                     \cup {[c |-> "nameNeq", x |-> m, y |-> ""] : m \in Meas}
                     \cup {[c |-> "nameRe", x |-> "1$", y |-> ""]}       \* matches m1 only
 TagLeafs == {[c |-> "tagEq", x |-> k, y |-> v] : k \in Keys, v \in Vals}
+\* k =~ /^(a|b)$/ : matches every value of the key (and not the empty string, i.e. not a series without the key)
+TagRes == {[c |-> "tagRe", x |-> k, y |-> ""] : k \in Keys}
 Filters == {None} \cup TagLeafs \cup {[c |-> "tagNeq", x |-> k, y |-> v] : k \in Keys, v \in Vals}
 KeyConds == {None} \cup {[c |-> "keyEq", x |-> k, y |-> ""] : k \in Keys}
                    \cup {[c |-> "keyNeq", x |-> k, y |-> ""] : k \in Keys}
@@ -59,11 +63,12 @@ KeyOK(c, k) == CASE c.c = "none"   -> TRUE
 FilterOK(c, s) == CASE c.c = "none"   -> TRUE
                     [] c.c = "tagEq"  -> TagOf(s, c.x) = c.y
                     [] c.c = "tagNeq" -> TagOf(s, c.x) # c.y        \* an absent tag is ""
+                    [] c.c = "tagRe"  -> TagOf(s, c.x) # ""
 
 \* ---- queries
 \* MeasurementNames takes the whole database; a name clause or one tag clause (AND of both has legacy semantics, see DESIGN)
 MNQueries == {q \in {[api |-> "mn", auth |-> a, shards |-> Shards, name |-> n, key |-> None, filter |-> f] :
-                        a \in Auths, n \in NameConds, f \in {None} \cup TagLeafs} : q.name = None \/ q.filter = None}
+                        a \in Auths, n \in NameConds, f \in {None} \cup TagLeafs \cup TagRes} : q.name = None \/ q.filter = None}
 TKQueries == {[api |-> "tk", auth |-> a, shards |-> sh, name |-> n, key |-> kc, filter |-> f] :
                  a \in Auths, sh \in (SUBSET Shards) \ {{}}, n \in {None, [c |-> "nameEq", x |-> "m1", y |-> ""]}, kc \in KeyConds, f \in Filters}
 TVQueries == {[api |-> "tv", auth |-> a, shards |-> sh, name |-> n, key |-> kc, filter |-> f] :
@@ -124,7 +129,17 @@ NoStaleNames == \A q \in MCQueries : q.api = "tv" => ImplTV(data, rawkv, q) = TV
 
 \* ---- history
 Pick(j) == QSeq[((Seed * 7919 + nops * 104729 + j * 1299709 + Cardinality(data[1]) * 31 + Cardinality(data[2]) * 17) % NQ) + 1]
-Sample(d) == IF RecHist THEN [j \in 1..QPerStep |-> [q |-> Pick(j), exp |-> Result(d, Pick(j))]] ELSE <<>>
+\* directed queries derived from the world: MeasurementNames with a regex clause matching >= 2 values of key k, under the
+\* fine-grained authorizer that hides exactly the series of one of those values while another value is on a visible series
+DirectedMN(d) == {q \in MNQueries :
+                    /\ q.filter.c = "tagRe" /\ q.auth.kind = "fine"
+                    /\ \E v \in Vals : /\ q.auth.hide = HideVal(q.filter.x, v)
+                                        /\ \E s1, s2 \in LiveIn(d, Shards) : /\ MOf(s1) = MOf(s2)
+                                                                            /\ TagOf(s1, q.filter.x) = v
+                                                                            /\ TagOf(s2, q.filter.x) \notin {v, ""}}
+Sample(d) == IF RecHist THEN [j \in 1..QPerStep |-> [q |-> Pick(j), exp |-> Result(d, Pick(j))]]
+                              \o SetToSeq({[q |-> q, exp |-> Result(d, q)] : q \in DirectedMN(d)})
+             ELSE <<>>
 KVOf(X) == {<<MOf(s), k, TagOf(s, k)>> : s \in X, k \in Keys} \ {<<m, k, "">> : m \in Meas, k \in Keys}
 
 Init == /\ data = [i \in Shards |-> {}]
